@@ -169,3 +169,39 @@ def pivotgrowth_rules(chk, cid, prog, p, cfgname):
         chk.violate(cid, '%s:A-read-through-inverse-perm_c' % f.name, loc(f, f.body), f.name,
                     'column j of the factors corresponds to column inv_perm_c[j] of A: A->colptr must be subscripted with a value read from inv_perm_c', cfgname=cfgname)
     return n
+
+
+def norm_sum_rule(chk, cid, prog, cfgname):
+    """?lacon2 estimates ||inv(A)||_1; for complex vectors its 1-norm is the sum of the moduli (LAPACK xZSUM1 / xCSUM1: "takes the sum of the
+    absolute values ... uses the true absolute value"), not the |re|+|im| of the BLAS asum.  With |re|+|im| the estimate can exceed the true
+    norm by a factor up to sqrt(2), and RCOND then falls below the true value although the factorization is accurate.  Every addend of the
+    running sum in scsum1 / dzsum1 must be one call of the modulus function of the precision on an element of the vector."""
+    from ..run import AnalysisBroken
+    chk.clause(cid, 'the complex 1-norm used by the estimator sums true moduli')
+    n = 0
+    for (names, mag) in ((('scsum1_slu', 'scsum1_'), 'c_abs'), (('dzsum1_slu', 'dzsum1_'), 'z_abs')):
+        f = None
+        for nm in names:
+            f = f or prog.func(nm)
+        if f is None:
+            raise AnalysisBroken('%s not found' % names[0])
+        chk.saw(unit=f.unit, func=f.unit + ':' + f.name)
+        rets = {strip(x.c[0]).a.get('id') for x in f.body.walk() if x.k == 'Return' and x.c and strip(x.c[0]).k == 'Ref'}
+        # the returned variable may be a copy of the running sum (ret_val = stemp)
+        for x in f.body.walk():
+            if x.k == 'Assign' and x.a['op'] == '=' and strip(x.c[0]).k == 'Ref' and strip(x.c[0]).a.get('id') in rets and strip(x.c[1]).k == 'Ref':
+                rets = rets | {strip(x.c[1]).a.get('id')}
+        adds = [x for x in f.body.walk() if x.k == 'Assign' and x.a['op'] == '+=' and strip(x.c[0]).k == 'Ref' and strip(x.c[0]).a.get('id') in rets]
+        if not adds:
+            raise AnalysisBroken('%s: no accumulation into the returned sum found' % f.name)
+        for a in adds:
+            n += 1
+            r = strip(a.c[1])
+            inst = '%s:sum-of-moduli@%d' % (f.name, n)
+            if r.k == 'Call' and callee_name(r) == mag and len(r.c) == 2:
+                chk.ok(cid, inst, sample=pretty(a)[:60])
+            else:
+                chk.violate(cid, inst, loc(f, a), f.name,
+                            '`%s` does not add the modulus %s(element): the estimator then measures a different norm (|re|+|im| over-estimates the '
+                            '1-norm by up to sqrt(2)), and RCOND drops below the true value' % (pretty(a)[:70], mag), cfgname=cfgname)
+    return n
